@@ -265,10 +265,10 @@ OpenResult(st, dl, form) ==
     IF form = "alloc" THEN OpenAllocStepWith(st, Cat(dl.body, dl.tag), dl.aad, OvfFirstInOpen)
     ELSE OpenStep(st, dl.body, dl.tag, dl.aad)
 
-Open(c, d, form) ==
+OpenBytes(c, dl, d, form) ==
     /\ c \in Receivers
     /\ Count("open") < MaxOpens
-    /\ LET dl == Deliver(d)
+    /\ LET dummy == 0
        IN  /\ dl.ok
            /\ form = "detached" => BLen(dl.tag) = Nt(AeadOf(ctx[c]))
            /\ Bump("open")
@@ -290,6 +290,10 @@ Open(c, d, form) ==
                              ELSE rcvd
                   /\ Record(rec)
     /\ UNCHANGED <<sent, shots>>
+
+\* the delivery is either chosen by the adversary from the menu (d a descriptor) or given as bytes (traces)
+Open(c, d, form) == OpenBytes(c, Deliver(d), d, form)
+
 
 (***************************************************************************)
 (* Export                                                                  *)
@@ -344,24 +348,24 @@ SingleShotSeal(m, form) ==
            /\ Record(rec)
     /\ UNCHANGED <<ctx, sent, rcvd>>
 
-SingleShotOpen(m, form) ==
+SingleShotOpenBytes(p, dl, d, form) ==
     /\ Count("shot") < MaxShots
-    /\ LET p  == m.p
-           dl == Deliver(m.d)
-       IN  /\ dl.ok
-           /\ form = "detached" => BLen(dl.tag) = Nt(p.suite[3])
-           /\ Bump("shot")
-           /\ LET r == ShotOpenStep(p, dl, form)
-              IN Record([op |-> "single_shot_open", c |-> "", form |-> form,
-                         plain |-> [suite |-> p.suite, mode |-> p.mode, d |-> m.d],
-                         bytes |-> [sk_r |-> p.skR, enc |-> p.enc, info |-> p.info, aad |-> dl.aad]
-                                   @@ ModeBytesR(p)
-                                   @@ (IF form = "alloc" THEN [ct |-> Cat(dl.body, dl.tag)]
-                                       ELSE [ct |-> dl.body, tag |-> dl.tag]),
-                         kind |-> r.kind, err |-> r.err, out |-> [pt |-> r.pt],
-                         outn |-> [x \in {} |-> 0],
-                         pre |-> NoState, post |-> NoState, untouched |-> FALSE])
+    /\ dl.ok
+    /\ form = "detached" => BLen(dl.tag) = Nt(p.suite[3])
+    /\ Bump("shot")
+    /\ LET r == ShotOpenStep(p, dl, form)
+       IN Record([op |-> "single_shot_open", c |-> "", form |-> form,
+                  plain |-> [suite |-> p.suite, mode |-> p.mode, d |-> d],
+                  bytes |-> [sk_r |-> p.skR, enc |-> p.enc, info |-> p.info, aad |-> dl.aad]
+                            @@ ModeBytesR(p)
+                            @@ (IF form = "alloc" THEN [ct |-> Cat(dl.body, dl.tag)]
+                                ELSE [ct |-> dl.body, tag |-> dl.tag]),
+                  kind |-> r.kind, err |-> r.err, out |-> [pt |-> r.pt],
+                  outn |-> [x \in {} |-> 0],
+                  pre |-> NoState, post |-> NoState, untouched |-> FALSE])
     /\ UNCHANGED <<ctx, sent, rcvd, shots>>
+
+SingleShotOpen(m, form) == SingleShotOpenBytes(m.p, Deliver(m.d), m.d, form)
 
 (***************************************************************************)
 (* What a one-transition implementation test needs: the calls that created *)
